@@ -5,8 +5,8 @@
    fires", stated over the connection model BC (Broker/Conn.v).  Only statements,
    `exact`, Print Assumptions.
 
-   C14_lifecycle        (trace clause c14_lifecycle of Broker/ConnSpec2.v, for every
-                        trace the model accepts)  Per connection Terminate is called at
+   C14_lifecycle,       (trace clauses c14_lifecycle of Broker/ConnSpec2.v and, the official
+   C14_lifecycle2       one, c14_lifecycle2 of Broker/ConnSpec5.v, for every trace the model accepts)  Per connection Terminate is called at
                         most once, only after authentication succeeded, and exactly once
                         before Closed for every connection the backend set up; nothing
                         of the connection (no receive, send, backend call) happens after
@@ -54,7 +54,7 @@
 From Coq Require Import List NArith Bool.
 From Coq.Strings Require Import Byte.
 From GM Require Import Base.Lts Codec.Packet Session.Store Broker.Conn Broker.ConnSpec Broker.ConnSpec2
-  Broker.ConnProofsD0 Broker.ConnProofsD1 Broker.ConnProofsD2 Broker.ConnProofsDTraces.
+  Broker.ConnSpec5 Broker.ConnProofsD0 Broker.ConnProofsD1 Broker.ConnProofsD2 Broker.ConnProofsD3 Broker.ConnProofsDTraces.
 Import ListNotations.
 Open Scope N_scope.
 
@@ -62,16 +62,18 @@ Theorem C14_lifecycle : forall es s, bc_run es = Some s -> c14_lifecycle es = tr
 Proof. exact c14_lifecycle_holds. Qed.
 Print Assumptions C14_lifecycle.
 
-(* the same with a slightly stricter scanner (lc_step_strict, Broker/ConnProofsD1.v): a
-   successful Authenticate / Setup is refused after Closed as well -- in lc_step their
-   patterns precede the "nothing after Closed" line and escape it *)
-Theorem C14_lifecycle_strict : forall es s, bc_run es = Some s -> c14_lifecycle_strict es = true.
-Proof. exact c14_lifecycle_strict_holds. Qed.
-Print Assumptions C14_lifecycle_strict.
+(* the official life-cycle clause: c14_lifecycle2 (Broker/ConnSpec5.v) is c14_lifecycle
+   with "nothing of the connection happens after Closed" applied to a successful
+   Authenticate / Setup as well -- in lc_step their patterns precede that line and
+   escape it.  It implies the clause above on every trace. *)
+Theorem C14_lifecycle2 : forall es s, bc_run es = Some s -> c14_lifecycle2 es = true.
+Proof. exact c14_lifecycle2_holds. Qed.
+Print Assumptions C14_lifecycle2.
 
-Example C14_lifecycle_strict_differs :
-  c14_lifecycle [EAuth 2 AOk] = true /\ c14_lifecycle_strict [EAuth 2 AOk] = false /\
-  c14_lifecycle_strict td_life = true.
+Example C14_lifecycle2_differs :
+  c14_lifecycle [EAuth 2 AOk] = true /\ c14_lifecycle2 [EAuth 2 AOk] = false /\
+  c14_lifecycle2 (td_life ++ [ESetup 2 (SOk false false 1 1 1)]) = false /\
+  c14_lifecycle2 td_life = true.
 Proof. vm_compute. repeat split; reflexivity. Qed.
 
 (* definitions used below (Broker/ConnProofsD2.v):
